@@ -269,6 +269,12 @@ fn o_name_pair(c: &NamePair, st: &mut Stats) -> Result<(), String> {
     }
     let first = Program { ty: c.ty.clone(), name: c.first.clone(), ops: vec![] };
     let _ = run::<ITyped>(&first).0;
+    // ... and, when both names are the same, the same name under the other rule first (nuget before pypi and
+    // the other way round): what one rule remembers must not be taken for the result of the other
+    if c.first == c.second {
+        let other = Program { ty: if c.ty == "pypi" { "nuget".into() } else { "pypi".into() }, name: c.first.clone(), ops: vec![] };
+        let _ = run::<ITyped>(&other).0;
+    }
     let _ = crate::api::parse::<ITyped>(&format!("pkg:{}/{}", c.ty, c.first.bytes().map(|b| format!("%{b:02X}")).collect::<String>()));
     o_name(&NameCase { ty: c.ty.clone(), name: c.second.clone() }, st).map_err(|m| format!("directly after the name {:?}: {m}", c.first))?;
     st.class("consecutive-pair");
@@ -293,18 +299,33 @@ pub fn sections() -> Vec<Box<dyn Section>> {
         }),
         Box::new(Enumerated {
             name: "every-scalar-value-next-to-a-separator".into(),
-            total: Box::new(|_| 0x110000 * 4),
+            total: Box::new(|_| 0x110000 * 7),
             make: Box::new(|_, i| {
-                let c = char::from_u32((i / 4) as u32)?;
-                let (ty, name) = match i % 4 {
+                let c = char::from_u32((i / 7) as u32)?;
+                let (ty, name) = match i % 7 {
                     0 => ("pypi", format!("{c}_a")),
                     1 => ("pypi", format!("a.{c}")),
                     2 => ("pypi", format!("A-{c}-B")),
-                    _ => ("nuget", format!("A{c}")),
+                    3 => ("nuget", format!("A{c}")),
+                    // next to a non-ASCII letter that changes when lower-cased (the slow path of the lower-casing)
+                    4 => ("nuget", format!("\u{c9}{c}")),
+                    5 => ("pypi", format!("{c}\u{c9}")),
+                    _ => ("pypi", format!("\u{c9}.{c}")),
                 };
                 Some(NameCase { ty: ty.into(), name })
             }),
             oracle: o_name_in_context,
+            required: vec!["name-changed-by-rule"],
+            complete: true,
+        }),
+        Box::new(Enumerated {
+            name: "names-near-the-inline-capacity".into(),
+            total: Box::new(|_| 2 * crate::chars::names_near_inline_capacity().len() as u64),
+            make: Box::new(|_, i| {
+                let v = crate::chars::names_near_inline_capacity();
+                Some(NameCase { ty: ["pypi", "nuget"][(i as usize) / v.len()].into(), name: v[(i as usize) % v.len()].clone() })
+            }),
+            oracle: o_name,
             required: vec!["name-changed-by-rule"],
             complete: true,
         }),
